@@ -143,6 +143,8 @@ def finish(prop, tier, repo_root, db, results, lemma_results, wall, verbose=Fals
             print("   ", r["crash"].strip().replace("\n", "\n    "))
         if r["error"]:
             print("   ", r["error"])
+        if r.get("unreached_raises"):
+            print(f"    WARNING: declared exceptional exits never reached on any path: {r['unreached_raises']}")
         for name, e in r["obligations"].items():
             if verbose or e["status"] != "discharged":
                 print(f"    {e['status']:<10} {name}  [{','.join(e['solvers'])} {e['time']}s x{e['paths']}] {e['where'][:110]}")
@@ -153,10 +155,10 @@ def finish(prop, tier, repo_root, db, results, lemma_results, wall, verbose=Fals
     for ln in sorted(set(known_lines)):
         print(ln)
     code = 0
-    if crashes or (n_ob + len(known_obs)) == 0:
-        code = 3
-    elif violations:
+    if violations:
         code = 1
+    elif crashes or (n_ob + len(known_obs)) == 0:
+        code = 3
     elif errors or undecided:
         code = 2
     if code == 1:
@@ -212,6 +214,7 @@ def write_evidence(prop, tier, repo_root, db, allres, n_ob, n_dis, per_ob, sampl
             "property_clauses_not_decided": not_decided,
             "bounded_stand_ins": extra.get("bounded", []),
             "crosscheck": extra.get("crosscheck", {}),
+            "unreached_exceptional_exits": [{"fn": r["fn"], "raises": r["unreached_raises"]} for r in allres if r.get("unreached_raises")],
             "exit_code": code,
             "repo_root": repo_root,
         },
@@ -219,6 +222,8 @@ def write_evidence(prop, tier, repo_root, db, allres, n_ob, n_dis, per_ob, sampl
         "wall_s": round(wall, 2),
         "violations": len(violations),
     }
+    if os.environ.get("PYVC_NO_EVIDENCE"):
+        return
     d = os.path.join(HERE, "evidence")
     os.makedirs(d, exist_ok=True)
     with open(os.path.join(d, f"{prop}.json"), "w") as fh:
